@@ -30,8 +30,10 @@ func (s *State) LoginEnable(pass string, cfg *program.Config) {
 		// Enter enable mode.
 		if !waitPrompt("enable", "#") {
 			// Enable password required.
-			// Use login password as enable password.
-			if !waitPrompt(pass, "#") {
+			// Use login password as enable password,
+			// but send it only if device really asks for a password.
+			if !strings.HasSuffix(strings.ToLower(out), "password:") ||
+				!waitPrompt(pass, "#") {
 				errlog.Abort("Authentication for enable mode failed")
 			}
 		}
